@@ -142,6 +142,11 @@ def gen(rng, tier):
     return {'n1': n1, 'n2': n2, 'batches': batches,
             'per_task_cb': sorted(rng.sample(range(n), rng.randint(0, n))),
             'raising_cb': rng.random() < 0.3,
+            # callbacks which change the callback registry while they are
+            # being dispatched: a per-task callback unregisters itself when
+            # its task is final, the wildcard callback registers a second one
+            'self_unreg': rng.random() < 0.3,
+            'reg_in_cb': rng.random() < 0.2,
             'delay_max': rng.choice([0.0, 0.0, 0.05, 0.3]),
             'kinds': sorted(kinds)}
 
@@ -184,11 +189,26 @@ def run(seed, scenario, trace=None, tier='quick'):
                 sim.violation(PROP, clause, site_of(sim),
                               {'uid': uid, 'seen': list(lst),
                                'expected': list(exp)})
+            if sc.get('reg_in_cb') and not st.get('cb2'):
+                st['cb2'] = True
+                sim.probe('cb_registers_callback')
+                st['tmgr'].register_callback(wild_cb_2)
             if sc['raising_cb'] and len(lst) % 3 == 0:
                 raise RuntimeError('application callback failed')
 
         def task_cb(task, state):
             obs_t.setdefault(task.uid, []).append(state)
+            if sc.get('self_unreg') and state in FINAL:
+                sim.probe('cb_unregisters_itself')
+                try:
+                    st['tmgr'].unregister_callback(cb=task_cb, uid=task.uid)
+                except ValueError:
+                    pass                      # already gone (repeated final)
+
+        obs_2 = dict()          # uid -> [states] seen by the late wildcard cb
+
+        def wild_cb_2(task, state):
+            obs_2.setdefault(task.uid, []).append(state)
 
         def driver():
             side = W.make_client(sim)
@@ -309,9 +329,19 @@ def run(seed, scenario, trace=None, tier='quick'):
             # on): must be a suffix-compatible subsequence of the wildcard view
             for uid, lst in obs_t.items():
                 full = obs.get(uid, [])
+                if sc.get('self_unreg'):
+                    # it unregistered itself at the first final state
+                    k = [i for i, x in enumerate(full) if x in FINAL]
+                    if k:
+                        full = full[:k[0] + 1]
                 if lst != full[len(full) - len(lst):]:
                     sim.violation(PROP, 'per_task_cb_differs', site_of(sim),
                                   {'uid': uid, 'task_cb': lst, 'wild': full})
+            for uid, lst in obs_2.items():
+                full = obs.get(uid, [])
+                if lst != full[len(full) - len(lst):]:
+                    sim.violation(PROP, 'late_cb_differs', site_of(sim),
+                                  {'uid': uid, 'late_cb': lst, 'wild': full})
 
         cfg['final'] = final
         return driver
